@@ -179,7 +179,7 @@ func (p *Prog) Walk(fn *Func) *walkResult {
 		return true
 	})
 	st := &State{Env: &Env{m: map[types.Object]*Def{}}}
-	if hs != nil {
+	if hs != nil && !hs.Recursive {
 		if cr := p.walks[hs.Caller]; cr != nil {
 			if cst := cr.at[hs.Call]; cst != nil && !cst.Dead {
 				st = w.inheritState(hs, cst)
